@@ -64,6 +64,7 @@ def specJsonText (j : Json) (s : List Char) : Val := .bool (j = .str s)
 
 def evalSpec (doc : Env) : E → Val
   | .col => .json doc.doc
+  | .fval => ofOpt (some doc.doc)
   | .lit l => evalLit l
   | .jx x (.path p) => specNav (evalSpec doc x) p
   | .jx _ (.raw _) => .unsup
@@ -89,6 +90,12 @@ def flattenSpec : Val → Except Err (List Val)
   | .json .null => .ok []
   | .json _ => .ok []
   | _ => .error .binder
+
+/-- FLATTEN(…, OUTER => TRUE): one row with NULL when there is nothing to expand -/
+def flattenOuterSpec (v : Val) : Except Err (List Val) :=
+  match flattenSpec v with
+  | .ok [] => .ok [.null]
+  | r => r
 
 def flattenTextSpec (v : Val) : Except Err (List Val) :=
   (flattenSpec v).map fun rows => rows.map specText
